@@ -550,6 +550,99 @@ FAMILIES.append(
            required_labels=["container=lf_full", "report-compared", "multi-reason"]))
 
 
+# ---- family value_kinds (round 8): the values the report names are the cells themselves, whatever the element kind ----
+_VK_POOLS = {
+    "tz_berlin": lambda pd: [pd.Timestamp(f"2021-03-{27 + i} 12:30", tz="Europe/Berlin") for i in range(5)],
+    "tz_utc": lambda pd: [pd.Timestamp(f"2021-01-0{i + 1} 01:00", tz="UTC") for i in range(5)],
+    "naive_dt": lambda pd: [pd.Timestamp(f"2021-01-0{i + 1} 23:00") for i in range(5)],
+    "timedelta": lambda pd: [pd.Timedelta(hours=i + 1) for i in range(5)],
+    "Int64": lambda pd: [1, 2, 3, 40, 50],
+    "category": lambda pd: ["a", "b", "c", "d", "e"],
+    "object_str": lambda pd: ["a", "b", "c", "d", "e"],
+    "float": lambda pd: [0.5, 1.5, 2.5, 3.5, 4.5],
+}
+
+
+@st.composite
+def strat_value_kinds(draw):
+    n = draw(st.integers(1, 6))
+    return {"kind": draw(st.sampled_from(sorted(_VK_POOLS))), "cells": draw(st.lists(st.integers(0, 4), min_size=n, max_size=n)),
+            "allowed": draw(st.lists(st.integers(0, 4), min_size=1, max_size=4, unique=True)),
+            "labels": draw(st.lists(st.integers(-5, 40), min_size=n, max_size=n, unique=True)),
+            "entry": draw(st.sampled_from(["column", "series"])), "other_col": draw(st.booleans())}
+
+
+def _vk_norm(v):
+    import pandas as pd
+
+    if isinstance(v, pd.Timestamp):
+        return ("ts", v.value, str(v.tz))
+    if isinstance(v, pd.Timedelta):
+        return ("td", v.value)
+    if hasattr(v, "item"):
+        v = v.item()
+    return (type(v).__name__, v)
+
+
+def eval_value_kinds(case):
+    """Oracle: every (label, value) a report names is a cell of the validated column - the value found under that
+    label, of the same kind (a tz-aware timestamp stays tz-aware, same zone) - and the named labels are exactly the
+    labels whose cell is outside the allowed set; eager and lazy name the same cells."""
+    import pandas as pd
+    import pandera as pa
+
+    ev = Eval()
+    pool = _VK_POOLS[case["kind"]](pd)
+    vals = [pool[i] for i in case["cells"]]
+    dtype = {"Int64": "Int64", "category": "category", "object_str": object}.get(case["kind"])
+    ser = pd.Series(vals, index=case["labels"], name="x", dtype=dtype)
+    allowed = [pool[i] for i in case["allowed"]]
+    check = pa.Check.isin(allowed)
+    if case["entry"] == "series":
+        schema, data, get = pa.SeriesSchema(None, checks=check, name="x"), ser, (lambda lab: ser.at[lab])
+    else:
+        data = pd.DataFrame({"x": ser})
+        if case["other_col"]:
+            data["y"] = range(len(ser))
+        schema, get = pa.DataFrameSchema({"x": pa.Column(None, checks=check)}), (lambda lab: data.at[lab, "x"])
+    expected = sorted((lab, _vk_norm(pool[i])) for lab, i in zip(case["labels"], case["cells"]) if i not in case["allowed"])
+    ev.labels.append("value_kinds:" + case["kind"])
+    ev.labels.append("value_kinds:" + ("some-fail" if expected else "all-pass"))
+    ev.nontrivial = bool(expected)
+    seen = {}
+    for mode in ("eager", "lazy"):
+        o = fp.outcome(lambda: schema.validate(data, lazy=(mode == "lazy")))
+        if o["kind"] in ("internal", "usage"):
+            ev.add("value_kinds:outcome-not-in-channel", {"mode": mode, "outcome": o["kind"], "case": case})
+            return ev
+        if (o["kind"] == "ok") != (not expected):
+            ev.add("value_kinds:wrong-verdict", {"mode": mode, "outcome": o["kind"], "expected_failures": len(expected)})
+            return ev
+        if o["kind"] == "ok":
+            continue
+        fc = o["exc"].failure_cases
+        named = sorted((row["index"], _vk_norm(row["failure_case"])) for _, row in fc.iterrows())
+        for lab, v in named:
+            if lab not in case["labels"]:
+                ev.add("value_kinds:reported-label-not-in-data", {"mode": mode, "label": repr(lab)})
+            elif _vk_norm(get(lab)) != v:
+                ev.add("value_kinds:reported-value-is-not-the-cell", {"mode": mode, "label": lab, "reported": repr(v),
+                                                                      "cell": repr(_vk_norm(get(lab)))})
+        if [l for l, _ in named] != [l for l, _ in expected]:
+            ev.add("value_kinds:reported-labels-differ-from-offending-labels",
+                   {"mode": mode, "reported": [l for l, _ in named], "expected": [l for l, _ in expected]})
+        seen[mode] = named
+    if len(seen) == 2 and seen["eager"] != seen["lazy"]:
+        ev.add("value_kinds:eager-and-lazy-name-different-cells", {"eager": repr(seen["eager"])[:200], "lazy": repr(seen["lazy"])[:200]})
+    return ev
+
+
+FAMILIES.append(
+    Family("value_kinds", eval_value_kinds, strategy=strat_value_kinds, n_quick=400, n_thorough=3000, shards_quick=2,
+           shards_thorough=8, required_labels=["value_kinds:tz_berlin", "value_kinds:Int64", "value_kinds:some-fail",
+                                               "value_kinds:all-pass"]))
+
+
 def selftest():
     refmodel.selftest()
 
